@@ -114,6 +114,9 @@ class SystemComponent(BaseComponent):
         Cancels long running adapter tasks associated with the component.
         """
         LOGGER.debug(f"Stopping {self.name}")
+        # the components inside the system simulation have to be told to stop as well,
+        # their own tasks (e.g. adapters) are not known to this component
+        await self.scheduler.stop_components()
         for task in self._tasks:
             task.cancel()
 
